@@ -3,6 +3,7 @@ import Bardic.Extracted.EntryPoints
 import Bardic.Extracted.ErrorSites
 import Bardic.Extracted.TokenKinds
 import Bardic.Extracted.StoryWrites
+import Bardic.Extracted.LoopPaths
 import Bardic.Engine.Api
 /-!
 # Theorems over tables re-extracted from /repo's source on every run
@@ -52,6 +53,42 @@ and so does every call that forwards a line index to a reporting function -/
 theorem errorSites_unshifted :
     Extracted.errorSites.all (fun s => s.2.2.2.2 == 0 && indexNames.contains s.2.2.2.1) = true ∧
     Extracted.lineForwards.all (fun s => s.2.2.2.2.2 == 0 && indexNames.contains s.2.2.2.2.1) = true := by
+  decide
+
+/-- how the functions that report a number of used lines compute it (function, amount, initial scanning index):
+ * the two Python-block extractors start scanning at `start_index + 1` and answer `i - start_index + 1` (≥ 2);
+ * `extract_multiline_expression` answers `1` or scans from `start_index + 1` and answers `i - start_index` (≥ 1);
+ * the `@if` / `@for` extractors scan from the opener line itself, whose branch advances by the literal 1 before any
+   exit of the loop (rows of `loopPaths`), and answer `i - start_index` (≥ 1);
+ * the choice-block collector may answer 0 — its only caller then advances by the literal 1 (row `core.py` below). -/
+def reviewedConsumers : List (String × String × String) :=
+  [("_extract_py_new_syntax", "i - start_index + 1", "start_index + 1"),
+   ("_extract_py_old_syntax", "i - start_index + 1", "start_index + 1"),
+   ("extract_conditional_block", "i - start_index", "start_index"),
+   ("extract_loop_block", "i - start_index", "start_index"),
+   ("extract_join_choice_block", "i - start_index", "start_index"),
+   ("extract_join_choice_block", "0", "start_index"),
+   ("extract_multiline_expression", "i - start_index", "start_index + 1"),
+   ("extract_multiline_expression", "1", "start_index + 1")]
+
+def amountFunctions : List String :=
+  ["extract_python_block", "extract_multiline_expression", "extract_loop_block", "extract_conditional_block",
+   "extract_join_choice_block"]
+
+/-- **every path to the next iteration of every `while` loop of the compiler advances the loop index**
+(table re-extracted from the Python AST on every run by a must-analysis over if / try / with / continue /
+break / return / raise): each `continue` and each end of a loop body is reached only after the index was
+increased — by a positive literal, or by an amount reported by one of the line-consuming functions, whose ways
+of computing that amount are exactly the reviewed ones; no loop assigns its index in any other way; where the
+only advance is the choice-block amount (which may be 0) a literal advance follows. -/
+theorem loopPaths_advance :
+    Extracted.loopPaths.all (fun r => r.2.2.2.2.2.2.2.1 &&
+      r.2.2.2.2.2.2.2.2.all (fun a => a == "lines_consumed" || a == "nested_lines" || a == "nested_lines_consumed") &&
+      r.2.2.2.1 != "") = true ∧
+    Extracted.amountSources.all (fun s => amountFunctions.contains s.2.2.2) = true ∧
+    Extracted.consumers.all (fun c => reviewedConsumers.contains (c.2.1, c.2.2.2.1, c.2.2.2.2)) = true ∧
+    (Extracted.amountSources.filter (fun s => s.2.2.2 == "extract_join_choice_block")).length = 1 ∧
+    Extracted.loopPaths.length ≥ 60 := by
   decide
 
 end Bardic
